@@ -45,8 +45,11 @@ func ruleR01cShared(h *H, rule string) {
 }
 
 func ruleR08b(h *H) {
-	const rule = "R08b"
-	h.Rule(rule, "K1", "every ReadWriteSegment.Append in the WAL is success-dominated by the check that the entry's offset is exactly lastAppendedOffset+1 (or the log is empty)", 2)
+	h.Rule("R08b", "K1", "every ReadWriteSegment.Append in the WAL is success-dominated by the check that the entry's offset is exactly lastAppendedOffset+1 (or the log is empty)", 2)
+	ruleR08bInto(h, "R08b")
+}
+
+func ruleR08bInto(h *H, rule string) {
 	wt := h.implType(rule, "server/wal", "Wal")
 	if wt == nil {
 		return
